@@ -355,6 +355,7 @@ pub fn run(o: Opts) -> i32 {
     let mut hist: BTreeMap<String, BTreeMap<String, u64>> = BTreeMap::new();
     let mut distinct: HashSet<String> = HashSet::new();
     let mut evaluations = 0u64;
+    let mut breaker_skipped = 0u64;
     let mut samples: Vec<J> = Vec::new();
     let mut model_memo: std::collections::HashMap<String, String> = std::collections::HashMap::new();
     for wi in 0..sv.workers.len() {
@@ -370,6 +371,7 @@ pub fn run(o: Opts) -> i32 {
             model_memo.insert(l.clone(), reply_text(r));
         }
         let wreplies = sv.workers[wi].1.batch(&lines, t_case);
+        breaker_skipped += (lines.len() - wreplies.len()) as u64;
         for (i, (l, r)) in lines.iter().zip(wreplies.iter()).enumerate() {
             let imp = reply_text(r);
             let model = model_memo.get(l).cloned().unwrap_or_default();
@@ -433,6 +435,7 @@ pub fn run(o: Opts) -> i32 {
         ("traces_validated_against_impl", J::I(evaluations as i64)),
         ("histogram", hist_j),
         ("worker_restarts", J::I(restarts as i64)),
+        ("unevaluated_after_circuit_breaker", J::I(breaker_skipped as i64)),
         ("samples", J::A(samples)),
         ("failures_total", J::I(total_fail as i64)),
         ("failures", J::A(out_fail)),
